@@ -31,8 +31,9 @@ func (repo *TxRepository) MarkUnsafe(ctx context.Context, txid bitcoin.Hash32) (
 		return true, nil
 	}
 
-	repo.unconfirmed[txid] = newUnconfirmedTx(false, true, false)
-	return true, nil
+	// Not a relevant tx, so there is nothing to mark. Adding it here would make it look like it
+	// was already sent to the handlers when it confirms.
+	return false, nil
 }
 
 // Mark an unconfirmed tx as being verified by a trusted node.
